@@ -5,7 +5,7 @@ MC          : RestrictEq_Laws — over all _VersionMatch descriptions (6 operato
               RestrictEq_MC — a restriction-keyed cache (dict: hash bucket then ==; or linear == scan) over those
               descriptions: Transparent / NoTwins / StoreSound hold with the repaired key; with the snapshot's key
               NoTwins (dict) and Transparent (scan) are violated (expected: negative controls).
-spec -> code: RestrictEq_Export enumerates ordered pairs of restriction descriptions inside families of equal-looking
+spec -> code: RestrictEq_Export enumerates ordered pairs of restriction descriptions inside 14 families of equal-looking
               variants (version matches, string matchers, containment / USE-default matchers, wrapper-vs-value negation,
               static / defaulted USE deps, atoms with reordered USE deps and weak/strong blockers, boolean nodes, REQUIRED_USE
               DepSets with permuted members, function/flattening restrictions built positionally vs by keyword).
